@@ -122,6 +122,43 @@ def _norm_test(e, target):
     return None
 
 
+def _tests_local(fn, bb, local):
+    b = fn.blocks[bb]
+    t = b['term']
+    if not t or t['k'] != 'switch' or b['cleanup'] or t['discr']['k'] not in ('copy', 'move'):
+        return None
+    dl = t['discr']['pl']['l']
+    if dl == local and not t['discr']['pl']['p']:
+        return bb, dict((v, tb) for v, tb in t['targets']), t['otherwise']
+    for s in b['stmts']:
+        if s['k'] == 'assign' and not s['pl']['p'] and s['pl']['l'] == dl and s['rv']['k'] == 'discr':
+            pl = s['rv']['pl']
+            if pl['l'] == local and not pl['p']:
+                return bb, dict((v, tb) for v, tb in t['targets']), t['otherwise']
+    return None
+
+
+def _skip_observations(fn, local, r, call_bb):
+    """A test of the result whose arms all flow into a later test of the same value (`let seen = matches!(x, ..); match x {..}`) only
+    observes it: the later test is the one that decides what happens."""
+    for _ in range(4):
+        bb = r[0]
+        succs = [tb for tb in list(r[1].values()) + [r[2]] if tb is not None]
+        stop = set(fn.exits()) | {call_bb}
+        nxt = None
+        for b2 in sorted(set().union(*[fn.reachable_blocks(s_) for s_ in succs]) if succs else []):
+            if b2 == bb:
+                continue
+            r2 = _tests_local(fn, b2, local)
+            if r2 and all(fn.must_pass(s_, stop, {b2}) for s_ in succs):
+                nxt = r2
+                break
+        if nxt is None:
+            return r
+        r = nxt
+    return r
+
+
 def result_edges(fn, call_bb):
     """Edges of the test of the result of the call ending block call_bb, normalised to the discriminant space of the result:
     {value: target, 'otherwise': target, '_bb': switch block}.  Understands a direct `match`/`if let`, `if x`/`if !x`, a named
@@ -132,6 +169,7 @@ def result_edges(fn, call_bb):
     d = t['dest']['l']
     r = switch_of_local(fn, d, t['target'])
     if r:
+        r = _skip_observations(fn, d, r, call_bb)
         bb, m, oth = r
         m = dict(m)
         m['otherwise'] = oth
